@@ -13,13 +13,14 @@ RULE = ("seeded runs of the real uploader/downloader on a simulated grid: k<=N<=
         "write-batch size, read chunk size, share-layout version, overdue timer and finder parallelism randomised per run; reads through a fresh client; "
         "non-trivial = an upload completed and a read/oracle ran; distinct = (probe counts, k, n, size) fingerprint")
 RULE += '; plus warm nodes (a completed earlier read), mostly multi-segment files, consumers that pause/stop at write counts or give up after a drawn simulated delay while a segment is in flight, reader segment-size guess knob, simulated CPU thread pool'
+RULE += "; consumers also pause and resume in bursts at drawn instants unrelated to their writes (a shared connection's flow control)"
 TECHNIQUE = "deterministic simulation: seeded schedules over a simulated network/reactor, byte-exact and independent-decoder oracles"
 LEVEL_TEXT = "seeded search over inputs, configurations and delivery schedules; sampling, not enumeration"
 LEVEL_NOTE = ("real: allmydata.client._Client, Uploader/Encoder/Tahoe2ServerSelector, downloader, StorageFarmBroker/NativeStorageServer, StorageServer; "
               "stub: reactor, foolscap wire (SimRef, per-connection FIFO), os.urandom (seeded), CPU thread pool (simulated: synchronous, or completion as a reactor event after a drawn delay), RSA keygen (pool); "
               "trusted: oracles/sharecheck.py + oracles/refhash.py (hashlib, zfec, AES only)")
 REAL = ["allmydata.client._Client", "immutable.upload/encode/layout", "immutable.downloader.*", "immutable.filenode/literal", "storage_client", "storage.server"]
-STUB = ["reactor/time", "foolscap transport (SimNet/SimRef)", "os.urandom", "cputhreadpool (SimThreadPool: in a third of the runs the result is delivered by a reactor event after a drawn delay, otherwise synchronously)"]
+STUB = ["reactor/time", "foolscap transport (SimNet/SimRef; per-connection FIFO; in half of the runs arrivals are batched: several messages handed over before queued zero-delay turns run)", "os.urandom", "cputhreadpool (SimThreadPool: in a third of the runs the result is delivered by a reactor event after a drawn delay, otherwise synchronously)"]
 ASSUMPTIONS = ["per-connection FIFO delivery (TCP)", "PYTHONHASHSEED=0 is part of the replay key"]
 
 
